@@ -275,6 +275,14 @@ class Runner:
                     await c.task
                 if c.outcome != "ok":
                     break
+                if spec.get("drop_client_after_connect"):
+                    # fire-and-forget use: the application keeps no reference to the client object once the session is up (it only waits for
+                    # the stop callback).  The harness drops its own references too and collects garbage.
+                    import gc  # noqa: PLC0415
+
+                    self.cli = None
+                    cli = None
+                    gc.collect()
             elif kind == "sleep":
                 await self.sleep(op[1])
             elif kind in ("request", "spawn"):
@@ -545,7 +553,7 @@ class Runner:
             obs.t_end = sim.clock
             # C19-style probe (recorded, judged by C19): can the client start again?
             obs.client_wedged = None
-            if self.cli._connection is not None and not any(not c.done for c in sim.calls):  # noqa: SLF001
+            if self.cli is not None and self.cli._connection is not None and not any(not c.done for c in sim.calls):  # noqa: SLF001
                 st = self.cli._connection.connection_state.name  # noqa: SLF001
                 if st == "CLOSED":
                     obs.client_wedged = "client still holds a CLOSED connection after all calls returned"
